@@ -160,6 +160,11 @@ func genNet(seed uint64, tier string, prop string) *Plan {
 		}
 		p.SK["fanout_only"] = strings.Join(fo, ",")
 	}
+	if prop == "C01" && r.chance(0.2) {
+		// a small message size limit: some publications fill a frame exactly
+		p.Knobs["max_msg_size"] = float64(r.rng(120, 400))
+		p.SK["sign"] = "strictnosign"
+	}
 	if prop == "C01" && r.chance(0.35) {
 		// short gossip windows: a message is advertised in 1 or 2 heartbeats only
 		hg := r.rng(1, 2)
@@ -516,8 +521,18 @@ func (g *netGen) genC01() {
 			g.p.Knobs["max_ihave_len"] = float64(per)
 		}
 		g.add("settle", int64(r.rng(0, 1500)))
+		burst := 0
+		// (not together with a small frame limit: the advertisement of a burst is then cut into more
+		// IHAVE messages than a peer accepts per heartbeat, MaxIHaveMessages - a protocol budget)
+		_, smallFrames := g.p.Knobs["max_msg_size"]
+		if _, small := g.p.Knobs["max_ihave_len"]; !small && !smallFrames && r.chance(0.3) {
+			burst = r.rng(11, 30) // more IDs in one advertisement than the per-heartbeat IHAVE message budget
+			// (the reply to one IWANT for all of them may be cut into as many frames: room for them
+			// in the outbound queue, whose overflow is a documented loss and not a C01 case)
+			g.p.Knobs["queue_size"] = 256
+		}
 		for round := r.rng(1, 3); round > 0; round-- {
-			for k := r.rng(1, per); k > 0; k-- {
+			for k := r.rng(1, per) + burst; k > 0; k-- {
 				g.add("pub", int64(r.intn(g.n)), 0, int64(r.rng(8, 300)))
 				if r.chance(0.6) {
 					g.add("advus", int64(r.rng(1, 30000)))
@@ -552,7 +567,7 @@ func (g *netGen) genC01() {
 		}
 		g.add("settle", int64(r.rng(0, 1500)))
 		for k := r.rng(1, 5); k > 0; k-- {
-			g.add("pub", int64(r.intn(g.n)), int64(r.intn(g.nt)), int64(r.rng(8, 300)))
+			g.add("pub", int64(r.intn(g.n)), int64(r.intn(g.nt)), int64(r.rng(8, 300)), 0, int64([]int{0, 0, 0, 0, 1, 2, 3}[r.intn(7)]))
 			if r.chance(0.6) {
 				g.add("advus", int64(r.rng(1, 30000)))
 			}
